@@ -9,6 +9,7 @@ import (
 	"net/http"
 	"strconv"
 	"testing"
+	"time"
 
 	"pgregory.net/rapid"
 	"verif/vp"
@@ -124,7 +125,9 @@ func c08Run(c c08Case, r *vp.Rec) error {
 		}
 	})
 	s := vpNewSrv(vpSrvOpts{Sched: c.Sched}, handler)
-	defer s.closeAndWait(0)
+	// fake time must pass for the server's shutdown timers, or the bubble would
+	// end with goroutines still blocked on them
+	defer s.closeAndWait(30 * time.Second)
 
 	// monitor state (the client's view, permissive where the protocol allows a race)
 	connWin := int64(65535)
